@@ -67,7 +67,7 @@ class NotAClosure(Unsupported):
 
 
 class Frame:
-    __slots__ = ('fid', 'key', 'inst', 'body', 'locals', 'bb', 'si', 'dest', 'ret_bb', 'call_span')
+    __slots__ = ('fid', 'key', 'inst', 'body', 'locals', 'bb', 'si', 'dest', 'ret_bb', 'call_span', 'prologue')
 
     def clone(self):
         f = Frame.__new__(Frame)
@@ -81,6 +81,7 @@ class Frame:
         f.dest = self.dest
         f.ret_bb = self.ret_bb
         f.call_span = self.call_span
+        f.prologue = getattr(self, 'prologue', None)
         return f
 
 
@@ -170,6 +171,7 @@ class Interp:
         self.stats = {'steps': 0, 'forks': 0, 'instances': set()}
         self.domain_hook = None
         self.rename = []        # [(actual name tuple, canonical name tuple)]: roles of private state (engine/roles.py)
+        self.cell_images = {}   # canonical cell name -> [(facts, content)]: image of the public setter (catalog.cell_images_for)
 
     # ------------------------------------------------------------------ symbolic inputs
     def build_sym(self, st, ty, name, heapname=None, opts=None):
@@ -198,6 +200,9 @@ class Interp:
                 inner = adt['variants'][0]['fields'][0]['ty']  # UnsafeCell<T>
                 inner_adt = self.prog.adt(inner)
                 t = inner_adt['variants'][0]['fields'][0]['ty']
+                if name in self.cell_images:
+                    # content = what the public setter stores for a canonical symbolic value; chosen on first read
+                    return ('model', 'cell', ('lazyinit', name))
                 return ('model', 'cell', self.build_sym(st, t, name))
             if path in ('core::num::NonZero', 'core::num::nonzero::NonZero'):
                 # represented by the integer it wraps (see the NonZero::new / get models): a leaf that is never 0
@@ -1638,6 +1643,22 @@ class Interp:
         # --- Cell
         if P == 'core::cell::Cell::<T>::new':
             return True, ('model', 'cell', args[0])
+        if P in ('core::cell::Cell::<T>::get', 'core::cell::Cell::<T>::replace', 'core::cell::Cell::<T>::take'):
+            c0_ = self.read(st, args[0][1])
+            if c0_[0] == 'model' and c0_[1] == 'cell' and c0_[2][0] == 'lazyinit':
+                content = None
+                for facts_, cont_ in self.cell_images[c0_[2][1]]:
+                    if all(self.need(st, ('atom', a_)) for a_ in facts_):
+                        content = cont_
+                        break
+                if content is None:
+                    raise Infeasible()
+                root_, proj_ = args[0][1]
+                if root_[0] == 'local':
+                    frm_ = st.frame(root_[1])
+                    frm_.locals[root_[2]] = self._update(st, frm_.locals[root_[2]], proj_, ('model', 'cell', content))
+                else:
+                    st.heap[root_[1]] = self._update(st, st.heap[root_[1]], proj_, ('model', 'cell', content))
         if P == 'core::cell::Cell::<T>::get':
             c = self.read(st, args[0][1])
             if c[0] != 'model' or c[1] != 'cell':
